@@ -287,6 +287,26 @@ CLAIMED = {
         technique="Lean 4 proof (commutation from disjoint footprints, List.Perm induction) over the generated schedule + reproducibility oracle"),
 }
 
+# stages and theorem files added after the build round (sessions 3-4), appended to the level text of the property
+ADDED = {
+ "C01": " Added since: convergence oracle evaluated on the implementation's report even when a trace no longer replays; disc-like domains and genuine annuli; second-solve and reported-figure oracles.",
+ "C02": " Added since: the order oracle also runs the give strategy without caches and with a two-level cap.",
+ "C03": " Added since: code-level cache model (C03c), whole cycles give = take (C10g), sampled caches = fresh caches along the chain (C10i); stage through the solver object (setup() -> Level wrappers) with a twin object of the other strategy.",
+ "C04": " Added since: code-level assembly models of both direct solvers (C04c, C04g; tables regenerated from the headers); split histories in one process, tiny / huge right-hand sides, stage through the solver object.",
+ "C05": " Added since: the stored line matrices of the real smoothers against the SPD model (C06d) with an exact LDL^T oracle; user-supplied profiles with dominating reaction term; operators of the built hierarchy are SPD from hypotheses on the inputs only (C05b).",
+ "C06": " Added since: code-level models of SmootherTake / SmootherGive with refinement theorems (C06c, C06d, C06g); repeated sweeps of one long-lived smoother object; stage through the solver object.",
+ "C07": " Added since: code-level models of both extrapolated smoothers (C07c, C07g); repeated sweeps of one object with the same work vector; stage through the solver object.",
+ "C08": " Added since: long-lived Interpolation objects over same-shape pairs with different coordinates; adjointness and convexity on the pairs of the built hierarchy (C08b).",
+ "C12": " Added since: structured vectors for the kernels at six thread counts; two-cycle solves under four thread-share factors (1e-9).",
+ "C14": " Added since: sparse right-hand sides (unit vectors, zero head / tail); slot re-assignment and move-on histories of solver objects.",
+ "C15": " Added since: a solve that no longer returns the solution after a history of copies / moves is reported with the history as the failing input.",
+ "C16": " Added since: sparse right-hand sides; large strictly diagonally dominant systems; solver object histories; NDEBUG search and crash probe when the harness dies.",
+ "C17": " Added since: copy / move histories of grids; ASan build with assertions compiled out; many angle counts (even ntheta up to 1300); grids from the parametric constructor with divideBy2.",
+ "C18": " Added since: coordinate lists with equal neighbours (files, vectors, thin annulus); nestedness oracle on the implementation (divideBy2 = d contains d - 1).",
+ "C19": " Added since: 15 source terms of the Circular geometry proved symbolically (C19s); finite-difference oracle on the compiled classes; evaluation histories (several objects of one class alive together); the shipped inputs satisfy the hypotheses of the end-to-end theorem (C19i) and C19e states shipped problem -> fixed point of the concrete cycle in one theorem.",
+ "C20": " Added since: setup() decision table (C20s) on real traces; Vector copies and kernels under ASan/UBSan around the parallel switch; reported error figures vs serial recomputation.",
+}
+
 PENDING_REASON = "not claimed yet: model and theorems for this property are still being built (see DESIGN.md section 7)"
 
 def main():
@@ -303,7 +323,7 @@ def main():
             "evidence_file": f"/verif/evidence/{pid}.json",
             "replay_cmd_template": f"python3 tools/verif.py replay {{path}}",
             "engine": "lean4-proof+correspondence",
-            "level_claimed": {"category": c["category"], "text": c["text"], "design_ref": c["design_ref"]},
+            "level_claimed": {"category": c["category"], "text": c["text"] + ADDED.get(pid, ""), "design_ref": c["design_ref"]},
             "level_note": c["note"],
             "technique": c["technique"],
         })
